@@ -448,6 +448,196 @@ def _s_run(ctx, items, replay_case=None):
     return res
 
 
+# ---------------------------------------------------------------- integer-dtype family (dtype x magnitude x long segments)
+# Curves as they are stored in practice: miss COUNTS against cache sizes in bytes (int64, x up to ~10^12 / 2^41, y ~5*10^8)
+# or in entries (int32, x ~10^5 .. 2^20, y ~2*10^5), evaluated on SPARSE breakpoint sets (2 .. a few dozen breakpoints:
+# the first gRDP iterations), so that |dx| * |dy| of a segment exceeds the range of the curve's own dtype: any step
+# of the cost that stays in the curve's dtype wraps there.  Each integer curve has a float64 twin (same values, exactly).
+# Histories share one cache and are consumed by Trace_GlobalCost exactly like the 'big' cases of T; the definition is
+# evaluated on the exact values (two-point form, extended precision).
+I_DTYPES = ("int64", "int32")
+I_SHAPES = ("exp", "power", "cliffs", "linear-noise", "rising")
+I_XMODES = ("even", "uneven", "translated")
+
+
+def _i_curve(dtype, shape, xmode, n, seed):
+    """strictly increasing integer abscissae, integer ordinates >= 1, everything (and every difference) inside dtype."""
+    g = np.random.default_rng([seed, n, I_SHAPES.index(shape), I_XMODES.index(xmode), I_DTYPES.index(dtype)])
+    big = dtype == "int64"
+    A = (5.0e8 if big else 2.0e5) * g.uniform(0.5, 1.2)
+    floor = A * g.uniform(1e-3, 2e-2) + 1.0
+    k = np.arange(n, dtype=float)
+    t = k / n
+    if shape == "exp":
+        y = floor + A * np.exp(-t * g.uniform(4.0, 10.0))
+    elif shape == "power":
+        y = floor + A / (1.0 + k / g.uniform(1.0, 50.0)) ** g.uniform(0.4, 0.9)
+    elif shape == "cliffs":
+        y = floor + 0.2 * A * (1.0 - t)
+        for c in g.uniform(0.02, 0.95, 8):
+            y = y + (0.1 * A) * (t < c)
+        y = y + g.integers(0, max(2, int(A * 1e-3)), n)
+    elif shape == "linear-noise":
+        y = floor + A * (1.0 - 0.9 * t) + g.integers(0, max(2, int(A * 1e-3)), n)
+    else:
+        y = floor + A * (1.0 - np.exp(-5.0 * t)) + g.integers(0, max(2, int(A * 1e-4)), n)
+    y = np.floor(y).astype(np.int64)
+    xmax = 2 ** 40 if big else 10 ** 5
+    step = max(1, xmax // n)
+    if xmode == "even":
+        x = (np.arange(n, dtype=np.int64) + 1) * step
+    elif xmode == "uneven":
+        x = np.cumsum(g.integers(1, 2 * step + 1, n).astype(np.int64))
+    else:
+        x = (2 ** 40 if big else 2 ** 20) + np.arange(n, dtype=np.int64) * step
+    ii = np.iinfo(dtype)
+    assert np.all(np.diff(x) > 0) and y.min() >= 1 and int(x[-1]) < ii.max // 2 and int(y.max()) < ii.max // 2
+    return np.ascontiguousarray(np.column_stack([x, y]).astype(dtype))
+
+
+def _i_queries(n, g):
+    """sparse breakpoint sets (long segments), two of them sharing a segment (cache hit); short curves also get a
+    stride-7 set and the every-point set (last: only one event then carries the long key list)."""
+    r = int(g.integers(n // 2, n - 2))
+    qs = [[0, n - 1], [0, n // 8, n - 1], [0, n // 10, n // 4, n // 2, n - 1], [0, r, n - 1], [0, 1, r, n - 1],
+          sorted(set([0, n - 1] + [int(v) for v in g.integers(1, n - 1, int(g.integers(2, 9)))])),
+          sorted(set([0, n - 1] + [min(n - 1, 2 ** j) for j in range(0, 18)])),
+          sorted(set([0, n - 1] + [int(v) for v in np.linspace(0, n - 1, int(g.integers(12, 40)))]))]
+    qs = [qs[j] for j in g.permutation(len(qs))][:6]
+    if n <= 4200:
+        qs.append(sorted(set(list(range(0, n, 7)) + [n - 1])))
+    if n <= 1100:
+        qs.append(list(range(n)))
+    return qs
+
+
+def _i_def(P, S, metric):
+    """(d, bound): the definition on the exact values (the integers are exact in extended precision; two-point form of the
+    interpolant, breakpoints reproduced exactly), and a bound on what binary64 rounding of a fitted ordinate
+    b + m * x (a few eps * (|m| * |x| + |y|)) may move the metric by; inf when a fitted ordinate is not well
+    separated from 0 (relative terms unconditioned)."""
+    n, k = len(P), len(S)
+    S = np.asarray(S, dtype=np.int64)
+    x, y = P[:, 0].astype(_LD), P[:, 1].astype(_LD)
+    seg = np.clip(np.searchsorted(S, np.arange(n), side="right") - 1, 0, k - 2)
+    a, b = S[seg], S[seg + 1]
+    h = y[a] + (y[b] - y[a]) * (x - x[a]) / (x[b] - x[a])
+    h[S] = y[S]
+    eps = _LD(1e-16)
+    tot = n + k - 2
+    xs, ys = np.abs(x[S]).astype(float), np.abs(y[S]).astype(float)
+    m = np.abs(np.diff(y[S]).astype(float) / np.diff(x[S]).astype(float))
+    E = (8.0 * _EPS * (m * np.maximum(xs[1:], xs[:-1]) + np.maximum(ys[1:], ys[:-1])))[seg]
+    lo = np.minimum(y, h).astype(float)
+    if metric == "r2":
+        rss = float(np.sum((y - h) ** 2))
+        tss = float(np.sum((y - np.mean(y)) ** 2))
+        if tss == 0:
+            return max(1.0 - rss, 0.0), float("inf")
+        d = 1.0 - rss / tss
+        e2 = float(np.sum(E * E))
+        bound = (2.0 * math.sqrt(rss * e2) + e2) / tss + n * _EPS * (1.0 + rss / tss)
+        return max(d, 0.0), bound
+    if np.any(E >= 0.25 * lo):
+        bound = float("inf")
+        t = np.zeros(n)
+    else:
+        t = E / lo
+        bound = None
+    if metric == "rmsle":
+        d = math.sqrt(float(np.sum((np.log(y + 1) - np.log(h + 1)) ** 2)) / tot)
+    elif metric == "rmspe":
+        d = math.sqrt(float(np.sum(((y - h) / (y + eps)) ** 2)) / tot)
+    elif metric == "rpd":
+        d = float(np.sum(np.abs((y - h) / (np.maximum(y, h) + eps)))) / tot
+    else:
+        d = float(np.sum(2 * np.abs(h - y) / (np.abs(y) + np.abs(h) + eps))) / tot
+    if bound is None:
+        if metric in ("rmsle", "rmspe"):
+            bound = math.sqrt(float(np.sum((2.0 * t) ** 2)) / tot)
+        else:
+            bound = float(np.sum(4.0 * t)) / tot
+        bound += n * _EPS * abs(d)
+    return max(d, 0.0), bound
+
+
+def _i_record(item):
+    """T: one integer-dtype curve (or its float64 twin), one metric, one history against a shared cache."""
+    if item is None:
+        return None
+    import kneeliverse.evaluation as ev
+    import kneeliverse.metrics as metrics
+    cid, dtype, shape, xmode, n, metric, seed, twin = item
+    P = _i_curve(dtype, shape, xmode, n, seed)
+    imax = float(np.iinfo(dtype).max)
+    if twin:
+        P = P.astype(np.float64)        # exact: every value is below 2^53
+    g = np.random.default_rng([seed, n, 5])
+    queries = _i_queries(n, g)
+    M = enums.pick(metrics.Metrics, metric)
+    shared = {}
+    events = []
+    wraps = amb = 0
+    X, Y = P[:, 0].astype(float), P[:, 1].astype(float)
+    for S in queries:
+        Sa = np.array(S)
+        e = {"S": S}
+        o1, v1, _ = monitor.call(ev.compute_global_cost, (P, Sa.copy(), M, shared), budget=monitor.quad(len(S), 8), wall=300)
+        o2, v2, _ = monitor.call(ev.compute_global_cost, (P, Sa.copy(), M), budget=monitor.quad(len(S), 8), wall=300)
+        ok = o1 == o2 == "returned"
+        try:
+            v1, v2 = (float(v1), float(v2)) if ok else (None, None)
+        except Exception:
+            ok, o1 = False, "returned-non-number"
+        if not ok:
+            e.update(outcome=o1 if o1 != "returned" else o2, keys=[], tss=False, shared_eq_fresh=True, defcls="equal",
+                     nonneg=True, perfect="na", value=None, expected=None)
+            events.append(e)
+            continue
+        d, bound = _i_def(P, S, metric)
+        e.update(outcome="returned", keys=sorted([_key(k) for k in shared if k != "tss"]), tss="tss" in shared,
+                 shared_eq_fresh=_bits(v1) == _bits(v2) or (math.isnan(v1) and math.isnan(v2)))
+        if not (bound <= 1e-7 and math.isfinite(d)):
+            e["defcls"] = "ambiguous"
+            amb += 1
+        else:
+            e["defcls"] = "equal" if numeric.close(v1, d, rel=1e-6, ab=1e-9 + 4.0 * bound) else "differs"
+            dd = np.abs(np.diff(X[Sa])) * np.abs(np.diff(Y[Sa]))
+            wraps += bool(np.any(dd[np.diff(Sa) >= 2] > imax)) if len(dd) else 0
+        e["nonneg"] = bool(v1 >= 0) or math.isnan(v1)
+        e["perfect"] = "na" if len(S) != n else ("ok" if v1 == (1.0 if metric == "r2" else 0.0) else "bad")
+        e["value"], e["expected"], e["bound"] = v1, d, bound
+        events.append(e)
+    case = {"id": cid, "n": n, "metric": metric,
+            "events": [{k: e[k] for k in ("S", "outcome", "keys", "tss", "shared_eq_fresh", "defcls", "nonneg", "perfect")} for e in events]}
+    meta = {"int": list(item), "metric": metric, "queries": [q if len(q) <= 40 else q[:3] + ["...", len(q)] for q in queries],
+            "values": [(e.get("value"), e.get("expected")) for e in events], "wraps": wraps, "ambiguous": amb,
+            "dtype": str(P.dtype), "xmax": float(X.max()), "ymax": float(Y.max())}
+    return case, meta, []
+
+
+def _i_plan(ctx):
+    """curve lengths straddling 2^8, 2^10, 2^12, 10^4, 2^14, 2^15, 2^16, 10^5; every length x both integer dtypes x 5 metrics
+    (shape / spacing rotate), each next to its float64 twin."""
+    r = ctx.rng.randrange
+    items = []
+    for rnd in range(1 if ctx.quick else 3):
+        lens = [257 + r(0, 40), 1025 + r(0, 60), 4097 + r(0, 100), 10001 + r(0, 500), 16385 + r(0, 500), 32769 + r(0, 1000),
+                65537 + r(0, 2000), 100001 + r(0, 9000)]
+        if rnd == 2:
+            lens = [n - 2 - r(0, 20) for n in (256, 1024, 4096, 10 ** 4, 16384, 32768, 65536, 10 ** 5)]
+        for a, n in enumerate(lens):
+            for b, dtype in enumerate(I_DTYPES):
+                for c, metric in enumerate(METRICS):
+                    j = len(items) // 2
+                    shape = I_SHAPES[(a + b + c + rnd + ctx.seed) % len(I_SHAPES)]
+                    xmode = I_XMODES[(a + 2 * b + c + rnd + r(0, 3)) % len(I_XMODES)]
+                    seed = ctx.seed * 2003 + j
+                    items.append(("int%d" % j, dtype, shape, xmode, n, metric, seed, False))
+                    items.append(("int%df" % j, dtype, shape, xmode, n, metric, seed, True))
+    return items
+
+
 STATIC = {"id": "static", "n": 5, "metric": "r2", "events": [
     {"S": [0, 2, 4], "outcome": "returned", "keys": [[0, 2], [2, 4]], "tss": True, "shared_eq_fresh": True, "defcls": "equal", "nonneg": True, "perfect": "na"},
     {"S": [0, 1, 2, 3, 4], "outcome": "returned", "keys": [[0, 1], [0, 2], [1, 2], [2, 3], [2, 4], [3, 4]], "tss": True, "shared_eq_fresh": True, "defcls": "equal", "nonneg": True, "perfect": "ok"}]}
@@ -474,7 +664,12 @@ def run(ctx):
                 "counts just above 2^8, 2^10, 2*2^10, 2^12 (2*2^12, 10^4) - of curves of 10^4 .. 1.1*10^5 points (4 shapes x 4 "
                 "breakpoint layouts x unit / uneven spacing) under quadratic back-edge budgets, judged against an independent "
                 "extended-precision evaluation of the definition (every interior breakpoint deleted in turn; tolerance = the "
-                "check's 1e-9 / 1e-12 widened by the rounding model eps * (|slope| * |x| + |y|) + n * eps * rmse)")
+                "check's 1e-9 / 1e-12 widened by the rounding model eps * (|slope| * |x| + |y|) + n * eps * rmse).  "
+                "Integer-dtype family: compute_global_cost (5 metrics, shared and fresh cache) on int64 (x to ~2^41, y ~5*10^8) and "
+                "int32 (x ~10^5 .. 2^20, y ~2*10^5) count curves of 257 .. 1.1*10^5 points (5 shapes x 3 spacings) and their float64 "
+                "twins, on histories of sparse breakpoint sets (2 .. ~40 breakpoints, so |dx|*|dy| of a segment exceeds the dtype; "
+                "stride-7 and every-point sets on the short curves), consumed by Trace_GlobalCost against the definition "
+                "evaluated on the exact integers")
     ctx.assumptions += numeric.ASSUMPTIONS + [
         "real arithmetic of a CostExpr is evaluated by harness/costdef.py over exact fractions (eps=1e-16 exactly), logs/sqrt in binary64",
         "0/eps situations (exact numerator 0 over a denominator that is only the eps guard) are classed 'ambiguous' and not compared",
@@ -504,11 +699,16 @@ def run(ctx):
     nT = 600 if ctx.quick else 6000
     rec = par.pmap(_record_random, [("h%d" % k, ctx.seed * 100003 + k) for k in range(nT)])
     rec += par.pmap(_record_big, [("big%d" % k, ctx.seed * 7 + k, nn) for k, nn in enumerate([70000, 140000] if ctx.quick else [70000, 140000, 300000, 66000])])
+    import time
+    ti = time.time()
+    irec = par.pmap(_i_record, _i_plan(ctx), chunksize=2)
+    ti = time.time() - ti
+    rec += irec
     cases = [c for c, _, _ in rec]
     meta = {c["id"]: m for c, m, _ in rec}
     rej = ctx.trace("Trace_GlobalCost", cases, selftest=_selftests(), chunk=300)
     for c, m, extra in rec:
-        ctx.count(("T", m.get("points", m.get("big")), m["metric"], m["queries"]), True)
+        ctx.count(("T", m.get("points", m.get("big", m.get("int"))), m["metric"], m["queries"]), m["wraps"] > 0 if "int" in m else True)
         for clause, detail in extra:
             ctx.violation(clause, {"kind": "Tx", "seed_item": [c["id"], 0], "points": m["points"], "S": detail.get("S")}, detail)
     for cid, vs in rej.items():
@@ -517,6 +717,11 @@ def run(ctx):
         if vs is None:
             ctx.note("DRIFT:cache-keys in recorded history %s" % cid)
             continue
+        if "int" in m:
+            ctx.violation(vs[0][0] if vs[0][0] != "equals-definition" else "equals-definition(%s)" % m["metric"],
+                          {"kind": "Tint", "recipe": m["int"]},
+                          {"verdict": vs[0], "values": m["values"], "metric": m["metric"], "dtype": m["dtype"], "queries": m["queries"]})
+            continue
         if "big" in m:
             ctx.violation(vs[0][0], {"kind": "Tbig", "big": m["big"]}, {"verdict": vs[0], "values": m["values"], "metric": m["metric"]})
             continue
@@ -524,8 +729,29 @@ def run(ctx):
                       {"kind": "T", "points": m["points"], "metric": m["metric"], "queries": m["queries"]},
                       {"verdict": vs[0], "values": m["values"]})
     ctx.sample({"binding": "T", "case": cases[0]})
+    # ---- integer-dtype family (recorded above, validated by Trace_GlobalCost together with the other histories)
+    im = [m for _, m, _ in irec]
+    ints = [m for m in im if not m["int"][7]]
+    ctx.traces += len(im)
+    ctx.extra["integer_dtype_family"] = {
+        "cases": len(im), "record_wall_s": round(ti, 1), "queries": sum(len(m["queries"]) for m in im),
+        "curve_points": sorted(set(m["int"][4] for m in im)), "dtypes": sorted(set(m["dtype"] for m in im)),
+        "shapes": sorted(set(m["int"][2] for m in im)), "spacings": sorted(set(m["int"][3] for m in im)),
+        "metrics": sorted(set(m["metric"] for m in im)),
+        "max_x": {d: max(m["xmax"] for m in ints if m["dtype"] == d) for d in sorted(set(m["dtype"] for m in ints))},
+        "max_y": {d: max(m["ymax"] for m in ints if m["dtype"] == d) for d in sorted(set(m["dtype"] for m in ints))},
+        "integer_cases_with_a_segment_whose_dx_times_dy_exceeds_the_dtype": sum(1 for m in ints if m["wraps"] > 0),
+        "queries_judged_with_such_a_segment": sum(m["wraps"] for m in ints),
+        "queries_skipped_as_ill_conditioned": sum(m["ambiguous"] for m in im),
+        "judged": "Trace_GlobalCost (returns, cache-transparent, equals-definition, non-negative, perfect-fit-value; cache keys as "
+                  "DRIFT), definition on the exact integers in extended precision, tolerance rel 1e-6 / abs 1e-9 widened by the "
+                  "rounding model 8 * eps * (|slope| * |x| + |y|) per fitted ordinate; a query whose model exceeds 1e-7 is skipped",
+        "not_judged": "unsigned dtypes (the difference x[0] - x[-1] of the two-point fit is outside the dtype: not a curve the "
+                      "library's arithmetic is defined on), compute_global_rmse / mip on integer curves"}
+    if ints and sum(1 for m in ints if m["wraps"] > 0) < len(ints) // 2:
+        ctx.note("VACUOUS-INTEGER-FAMILY: fewer than half of the integer curves had a judged segment with |dx|*|dy| beyond the dtype")
+    ctx.sample({"binding": "T-int", "recipe": im[0]["int"], "values": im[0]["values"]})
     # ---- scale family (MIP / global RMSE on thousands of breakpoints)
-    import time
     t0 = time.time()
     sres = _s_run(ctx, _s_plan(ctx))
     for rec, info, bad, _ in sres:
@@ -557,6 +783,13 @@ def replay(ctx, obj):
         for cid, vs in rej.items():
             if not vs[0][0].startswith("DRIFT:"):
                 ctx.violation(vs[0][0], c, {"verdict": vs[0], "values": m["values"]})
+    elif c["kind"] == "Tint":
+        case, m, _ = _i_record(tuple(c["recipe"]))
+        rej = ctx.trace("Trace_GlobalCost", [case])
+        for cid, vs in rej.items():
+            if not vs[0][0].startswith("DRIFT:"):
+                ctx.violation(vs[0][0] if vs[0][0] != "equals-definition" else "equals-definition(%s)" % m["metric"], c,
+                              {"verdict": vs[0], "values": m["values"], "dtype": m["dtype"], "queries": m["queries"]})
     elif c["kind"] == "Smip":
         _s_run(ctx, [tuple(c["recipe"])], replay_case=c)
     elif c["kind"] == "Tx":
